@@ -198,7 +198,7 @@ func c11Random(r *fw.Rand) ([]tcue, int64) {
 	unit := fw.Pick(r, []int64{1, 1000000, 1000000000})
 	texts := []string{"a", "b", "c"}[:r.Range(1, 3)]
 	if r.P(1, 3) {
-		texts = []string{"Hello", "Hello\nworld", "Hello\nworld\nagain"}[:r.Range(2, 3)]
+		texts = []string{"Hello", "Hello\nworld", "\nHello", "Hello\nworld\nagain"}[:r.Range(2, 4)]
 	}
 	cs := make([]tcue, n)
 	for i := range cs {
